@@ -16,13 +16,15 @@ static void susc_run(Ctx& c) {
     int pmode = (c.k % 3 == 2) ? PM_IGNORE : PM_DEFAULT;
     g.allow_unbalanced = (pmode == PM_IGNORE);
     ModelSpec m = gen_model(r, g);
+    const bool stress = (c.k % 6 == 5);           // beta*|pole| of several thousand: both overflow-avoiding branches of the tau formula
+    if (stress) m.beta = r.logu(200, 2000);
     Pipeline p; p.build_lattice(m);
     CMat Href = p.ref_H(); RefED ed; ed.solve(Href);
     if (ed.herm_defect() > 1e-12 * (1 + ed.hnorm)) { c.skipped = true; return; }
     p.build_states(pmode); p.build_hamiltonian(true); p.build_dm(m.beta);
     const int N = p.N; const double beta = m.beta; const long dim = p.dim;
-    c.model = m.describe(); c.canon = m.canon() + "|" + pm_name(pmode);
-    c.features.set("partition", pm_name(pmode)).set("N", N).set("pclass", m.pclass).set("blocks", p.nblocks());
+    c.model = m.describe(); c.canon = m.canon() + "|" + pm_name(pmode) + (stress ? "|stress" : "");
+    c.features.set("stress", stress).set("partition", pm_name(pmode)).set("N", N).set("pclass", m.pclass).set("blocks", p.nblocks());
     Pipeline::LibBasis lb = p.lib_basis(); RVec wlib = p.lib_weights(); RVec wref = ed.weights(beta);
 
     // operator quadruples (a,b,c,d): A = c+_a c_b, B = c+_c c_d
@@ -43,6 +45,8 @@ static void susc_run(Ctx& c) {
         Pomerol::QuadraticOperator A(*p.IC, *p.S, *p.H, (Pomerol::ParticleIndex)q[0], (Pomerol::ParticleIndex)q[1]); A.prepare(); A.compute();
         Pomerol::QuadraticOperator B(*p.IC, *p.S, *p.H, (Pomerol::ParticleIndex)q[2], (Pomerol::ParticleIndex)q[3]); B.prepare(); B.compute();
         Pomerol::Susceptibility chi(*p.S, *p.H, A, B, *p.DM); chi.prepare(); chi.compute();
+        if (c.k % 2 == 0) { chi.compute(); chi.prepare(); chi.compute(); }   // idempotent
+        Pomerol::Susceptibility chicopy(chi);
         CMat AF = jw_quad(N, q[0], q[1]), BF = jw_quad(N, q[2], q[3]);
         CMat AR = ed.rot(AF), BR = ed.rot(BF);
         CMat AL = lb.U.adjoint() * AF * lb.U, BL = lb.U.adjoint() * BF * lb.U;
@@ -55,7 +59,7 @@ static void susc_run(Ctx& c) {
             double W = 2 * n * M_PI / beta;
             cd ref = lehmann_chi(AR, BR, ed.E, wref, beta, W);
             if (std::abs(ref) > 1e-9) any = true;
-            if (use_expm && std::abs(n) <= 3) { cd r3 = expm_chi(ed, AF, BF, beta, W); c.count("oracle_crosschecks");
+            if (use_expm && !stress && std::abs(n) <= 3) { cd r3 = expm_chi(ed, AF, BF, beta, W); c.count("oracle_crosschecks");
                 if (!(std::abs(r3 - ref) <= 1e-9 * (1 + std::abs(ref)) * (1 + beta) * (1 + 0.01 * beta * ed.hnorm)))
                     c.violation("oracle", "HARNESS:oracle-disagree:susc", qs + " n=" + std::to_string(n) + " Lehmann " + fmt(ref) + " vs block exponential " + fmt(r3)); }
             auto det = [&] { return qs + "(n=" + std::to_string(n) + ") beta=" + fmt(beta) + " " + pk + " pclass=" + m.pclass + tol.breakdown(W); };
@@ -71,6 +75,8 @@ static void susc_run(Ctx& c) {
             cd ref = trace_tau(AR, BR, ed.E, ed.E0, beta, tau);
             cd lv = chi.of_tau(tau); double t1 = tol.at_tau(tau, ref), t2 = tol.at_tau(tau, ref, true);
             bool explained = std::abs(lv - ref) > t1 && std::abs(lv - ref) <= t2;
+            { cd cv = chicopy.of_tau(tau); c.cmp("copy-vs-original", "C14:copy-vs-original", cv, lv, 1e-14 * (1 + std::abs(lv)), [&] { return qs + " copy-constructed Susceptibility of_tau"; }); }
+            c.check("tau-finite", std::string("C14:tau-finite:") + (stress ? "large-beta" : "normal"), std::isfinite(lv.real()) && std::isfinite(lv.imag()), [&] { return qs + ".of_tau(" + fmt(tau) + ") is not finite, beta=" + fmt(beta); });
             c.cmp("tau-vs-definition", explained ? std::string("C14:significant-term-dropped:tau") : std::string("C14:tau-vs-definition:") + ok_, lv, ref, t1, [&] { return qs + ".of_tau(" + fmt(tau) + ") beta=" + fmt(beta) + " " + pk + " pclass=" + m.pclass + " dropped-but-significant terms: " + std::to_string(tol.significant_dropped()); });
         }
         // disconnected part, three ways of supplying <A>, <B>
